@@ -38,6 +38,19 @@ def run(chk, repo, tier):
             chk.ob("C17.R4", _construct, f"[{_rule}] {_key}", _ok, _detail, _where)
     if _err is not None and all(o[3] for o in _sub.obs):
         raise _err
+    # … and multiply is scalar multiplication for every curve point, also outside the subgroup (C07.R3 re-stated)
+    from . import C07 as _dep_C07
+    _sub7 = _SubCheck()
+    _err7 = None
+    try:
+        _dep_C07.run(_sub7, repo, "quick")
+    except AnalysisError as _e:
+        _err7 = _e
+    for _rule, _construct, _key, _ok, _detail, _where in _sub7.obs:
+        if _rule == "C07.R3" and "optimized_bls12_381" in _construct:
+            chk.ob("C17.R4", _construct, f"[{_rule}] {_key}", _ok, _detail, _where)
+    if _err7 is not None and all(o[3] for o in _sub7.obs):
+        raise _err7
     chk.rule("C17.R1", "subgroup_check(P) is is_inf(multiply(P, r)), r the prime group order, on the optimized BLS module's functions", 2)
     chk.rule("C17.R2", "H_EFF_G1, H_EFF_G2, G2_COFACTOR equal the values derived from x; clearing = multiply by them", 5)
     chk.rule("C17.R3", "#E(F_p) = h1·r; h2·r is the order of a sextic twist of E over F_p²; h2 | H_EFF_G2", 3)
